@@ -61,4 +61,22 @@ def libcTest : Libc where
 
 def primTest : Prim := primNow libcTest
 
+/-- the OLD variant of `Range_Show` (BEFORE fix 78c2117): each value printed with `"%i"` — libc reads an `int` from the `int64_t` that
+    `c_int` yields, so values beyond 32 bits came out truncated (kept for the regression witness corpus/fmt_fixed_range_show.ops) -/
+def showOldRange : ShowCfg := { showNow with rngItem := ['%', 'i'] }
+
+/-- the low 32 bits of `v` read as a signed `int` (what `%d` / `%i` without a length modifier print of an `int64_t` vararg) -/
+def wrap32 (v : Int) : Int := (v + 2147483648) % 4294967296 - 2147483648
+
+/-- a test "libc" that is sensitive to the WIDTH an integer conversion reads: with `l` (as in `"%li"`) the tag of the 64-bit value, without
+    (as in `"%i"`) the tag of its low 32 bits; everything else as `libcTest` -/
+def libcWidth : Libc where
+  text
+    | f, .i64 v => let w := if 'l' ∈ f then v else wrap32 v
+                   if w < 0 then ['-', 'n'] else ['n']
+    | f, v => libcTest.text f v
+  rej := libcTest.rej
+
+def primWidth : Prim := primNow libcWidth
+
 end Cello.Fmt
